@@ -13,7 +13,8 @@ CONSTANTS TraceFile, MaxClients,
           Check      \* names of the predicates this run judges
 Tr == ndJsonDeserialize(TraceFile)
 CIds == 1..MaxClients
-Ufrags == {"u1", "u9"}
+Ufrags == {"u1", "u9", "u1/6", "u9/6"}     \* registration keys: a ufrag in the IPv4 table, or ("/6") in the IPv6 table
+K6(u) == u \o "/6"
 Valid == {"known", "unknown", "late"}
 UfragOf(b) == IF b = "unknown" THEN "u9" ELSE "u1"
 Rng(s) == {s[k] : k \in 1..Len(s)}
@@ -91,10 +92,11 @@ Step ==
                  /\ hs' = Append(hs, [u |-> e.u, gen |-> g, live |-> TRUE,
                                       afterRemove |-> (~e.w /\ pv.ev = "Remove" /\ pv.u = e.u)])
                  /\ cs' = cs
-            [] e.ev = "Remove" ->
-                 /\ cs' = IF reg[e.u].st = "none" THEN cs ELSE Drop(cs, reg[e.u].gen, "removed")
-                 /\ hs' = IF reg[e.u].st = "none" THEN hs ELSE Kill(hs, reg[e.u].gen)
-                 /\ reg' = [reg EXCEPT ![e.u] = NoR] /\ gen' = gen
+            [] e.ev = "Remove" ->      \* RemoveConnByUfrag removes what is registered under the ufrag in both tables
+                 LET gs == {reg[k].gen : k \in {x \in {e.u, K6(e.u)} : reg[x].st # "none"}} IN
+                 /\ cs' = [c \in CIds |-> IF cs[c].st = "att" /\ cs[c].gen \in gs THEN [cs[c] EXCEPT !.st = "gone", !.must = "removed", !.cause = TRUE] ELSE cs[c]]
+                 /\ hs' = [h \in 1..Len(hs) |-> IF hs[h].gen \in gs THEN [hs[h] EXCEPT !.live = FALSE] ELSE hs[h]]
+                 /\ reg' = [k \in Ufrags |-> IF k \in {e.u, K6(e.u)} THEN NoR ELSE reg[k]] /\ gen' = gen
             [] e.ev = "Close" ->
                  /\ cs' = [c \in CIds |-> IF cs[c].st = "att" THEN [cs[c] EXCEPT !.st = "gone", !.must = "closed", !.cause = TRUE]
                                           ELSE IF cs[c].st = "wait" THEN [cs[c] EXCEPT !.cause = TRUE] ELSE cs[c]]
